@@ -978,25 +978,51 @@ func ruleMsgScope(p *Prog, r *Report) {
 	sort.Strings(names)
 	for _, name := range names {
 		key := rule + ":sml.parser." + name
-		// (1) re-initialised at the top of parseMessage, before any call
+		// (1) re-initialised in parseMessage before any other parser method runs:
+		// a store of a constant or a fresh map/slice to the field that
+		// dominates every call of a module function in parseMessage
 		reset := false
-		for _, instr := range pm.Blocks[0].Instrs {
-			if c, ok := instr.(*ssa.Call); ok {
-				if _, isB := c.Common().Value.(*ssa.Builtin); !isB {
-					break
+		for _, b := range pm.Blocks {
+			for si, instr := range b.Instrs {
+				s, ok := instr.(*ssa.Store)
+				if !ok {
+					continue
 				}
-			}
-			if s, ok := instr.(*ssa.Store); ok {
-				if fa, ok := s.Addr.(*ssa.FieldAddr); ok && derefStruct(fa.X.Type()) == st && st.Field(fa.Field).Name() == name {
-					switch s.Val.(type) {
-					case *ssa.Const, *ssa.MakeMap, *ssa.MakeSlice:
-						reset = true
+				fa, ok := s.Addr.(*ssa.FieldAddr)
+				if !ok || derefStruct(fa.X.Type()) != st || st.Field(fa.Field).Name() != name {
+					continue
+				}
+				switch s.Val.(type) {
+				case *ssa.Const, *ssa.MakeMap, *ssa.MakeSlice:
+				default:
+					continue
+				}
+				dominatesAll := true
+				for _, cb := range pm.Blocks {
+					for ci, cin := range cb.Instrs {
+						c, ok := cin.(*ssa.Call)
+						if !ok {
+							continue
+						}
+						if sc := c.Common().StaticCallee(); sc == nil || !InModule(sc) {
+							continue
+						}
+						if cb == b {
+							if ci < si {
+								dominatesAll = false
+							}
+						} else if !b.Dominates(cb) {
+							dominatesAll = false
+						}
 					}
+				}
+				if dominatesAll {
+					reset = true
 				}
 			}
 		}
 		if reset {
-			r.ok(rule, key, p.Pos(pm.Pos()), "re-initialised at the top of parseMessage before anything else runs")
+			r.ok(rule, key, p.Pos(pm.Pos()), "re-initialised in parseMessage before any other parser method runs")
 			continue
 		}
 		// (2) accumulator / stream: every store is append(field, ...) or field[k:]
@@ -1062,6 +1088,76 @@ func ruleMsgScope(p *Prog, r *Report) {
 			r.ok(rule, key, p.Pos(fn.Pos()), "after emitting the terminator the state returns lexMessageHeader")
 		default:
 			r.bad(rule, key, p.Pos(fn.Pos()), "after emitting the message terminator "+name+" does not return to lexMessageHeader")
+		}
+	}
+	// lexer mode flags: a field of the lexer that a state function sets to a
+	// constant is a mode; it must be back at its zero value whenever the
+	// terminator has been emitted, or it leaks into the next message
+	if lx := p.Func("sml", "lexMessageHeader"); lx != nil && len(lx.Params) == 1 {
+		lst := derefStruct(lx.Params[0].Type())
+		flags := map[string]bool{}
+		var stateFns []*ssa.Function
+		for _, fn := range p.PkgFuncs("sml") {
+			if isStateFn(fn) {
+				stateFns = append(stateFns, fn)
+			}
+		}
+		for _, fn := range stateFns {
+			for _, b := range fn.Blocks {
+				for _, instr := range b.Instrs {
+					if s, ok := instr.(*ssa.Store); ok {
+						if fa, ok := s.Addr.(*ssa.FieldAddr); ok && lst != nil && derefStruct(fa.X.Type()) == lst {
+							if _, isC := s.Val.(*ssa.Const); isC {
+								flags[lst.Field(fa.Field).Name()] = true
+							}
+						}
+					}
+				}
+			}
+		}
+		var fl []string
+		for f := range flags {
+			fl = append(fl, f)
+		}
+		sort.Strings(fl)
+		for _, f := range fl {
+			key := rule + ":sml.lexer." + f + ":mode-flag"
+			var leaks []string
+			for _, fn := range stateFns {
+				for _, b := range fn.Blocks {
+					emitsEnd, resets := false, false
+					for _, instr := range b.Instrs {
+						if c, ok := instr.(*ssa.Call); ok {
+							if sc := c.Common().StaticCallee(); sc != nil && strings.HasPrefix(sc.Name(), "emit") && len(c.Common().Args) >= 2 {
+								if cs, ok := c.Common().Args[1].(*ssa.Const); ok && constVal(cs).K == KInt && constVal(cs).I.Int64() == ttEnd {
+									emitsEnd = true
+								}
+							}
+						}
+						if s, ok := instr.(*ssa.Store); ok {
+							if fa, ok := s.Addr.(*ssa.FieldAddr); ok && derefStruct(fa.X.Type()) == lst && lst.Field(fa.Field).Name() == f {
+								if c, ok := s.Val.(*ssa.Const); ok {
+									z := constVal(c)
+									if (z.K == KBool && !z.B) || (z.K == KInt && z.I.Sign() == 0) || (z.K == KStr && z.S == "") || z.K == KNil {
+										resets = true
+									}
+								}
+							}
+						}
+					}
+					if emitsEnd && !resets {
+						leaks = append(leaks, fn.Name())
+					}
+				}
+			}
+			if len(leaks) > 0 {
+				r.bad(rule, key, "", fmt.Sprintf("lexer field %s is set to a constant by a state function (a mode flag) but is not reset where %s emits the message terminator: the mode survives into the next message", f, strings.Join(uniq(leaks), ", ")))
+			} else {
+				r.ok(rule, key, "", "mode flag is reset wherever the message terminator is emitted")
+			}
+		}
+		if len(fl) == 0 {
+			r.ok(rule, rule+":sml.lexer:no-mode-flags", "", "no state function stores a constant into a lexer field: the lexer has no mode besides its state function and cursor")
 		}
 	}
 	// the message loop runs until EOF
